@@ -22,7 +22,8 @@ type Replay struct {
 	Key      string `json:"key"`
 	Entry    string `json:"entry"`              // entry point / operation description
 	InputHex string `json:"input_hex,omitempty"` // raw bytes, when the case is a byte string
-	Value    string `json:"value,omitempty"`    // %#v of the model value, when the case is a value
+	Value    string `json:"value,omitempty"`    // dump of the model value, when the case is a value
+	ValueGob string `json:"value_gob,omitempty"` // the value itself (base64 gob), so that the case can be re-executed
 	Ops      string `json:"ops,omitempty"`      // operation / schedule list
 	Expected string `json:"expected"`
 	Observed string `json:"observed"`
